@@ -97,6 +97,18 @@ func main() {
 		slog.SetDefault(slog.New(slog.NewTextHandler(io.Discard, &slog.HandlerOptions{Level: slog.LevelDebug - 8})))
 		c.Count("processes_whose_default_logger_records_everything", 1)
 	}
+	// the process's local time zone is the machine's business too: in a quarter of the
+	// processes it is a zone with daylight saving time (or, where no zone can be loaded,
+	// one with an odd fixed offset).  Nothing the code under test reports depends on it.
+	if c.Batch%4 == 1 && os.Getenv("VMON_NOTZ") == "" {
+		zones := []string{"Europe/London", "America/New_York", "Australia/Sydney", "Asia/Kathmandu"}
+		if loc, err := time.LoadLocation(zones[(c.Batch/4)%len(zones)]); err == nil {
+			time.Local = loc
+		} else {
+			time.Local = time.FixedZone("odd", 5*3600+45*60)
+		}
+		c.Count("processes_with_a_local_time_zone_other_than_utc", 1)
+	}
 	if os.Getenv("VMON_NOTZ") != "" {
 		if _, err := time.LoadLocation("Europe/Paris"); err == nil {
 			fmt.Fprintln(os.Stderr, "vmon: asked to run without a time zone database, but one can be loaded")
